@@ -1,4 +1,5 @@
-"""C52 — scoped_session gives each scope its own session: the ScopedRegistry container (sequential contract)."""
+"""C52 — scoped_session gives each scope its own session: ScopedRegistry / ThreadLocalRegistry containers, scoped_session.__init__
+and remove() under proof; real threads in the bounded complement."""
 import contracts.registry  # noqa: F401
 from pyvc.contract import FUNCS
 from vlib.proof import run_proofs
@@ -13,8 +14,11 @@ def run(run, tier, seed, args):
     run_proofs(run, KEYS, tier, update_baseline=args.update_baseline, source_root=args.source_root)
     if not args.source_root:
         run_bounded(run, BOUNDED_KEYS, tier)
+        from checks import C52_bounded
+        C52_bounded.bounded(run, tier, seed)
     run.assumptions += [
         "scopefunc is pure within one registry call (returns the same key each time it is called during that call); createfunc returns an arbitrary object",
         "dict operations are atomic in CPython and distinct threads use distinct keys: assumed, not checked (schedules are not explored)",
-        "ThreadLocalRegistry (threading.local slot) and scoped_session.remove()/__call__ delegate to this container; they are not under proof",
+        "threading.local(): each thread sees its own attribute namespace, which disappears with the thread (trusted CPython semantics; the proof treats the object as the current thread's view with a may-be-absent attribute `value`)",
+        "Session.close() is outside the proof: a ghost flag `_g_closed` marks that it was called (assumed contract); scoped_session.__call__(**kw) and the generated proxy methods are not under proof (bounded complement only)",
     ]
